@@ -14,11 +14,13 @@ ASSUMPTIONS = [
     "specifier acceptance is packaging's (shipped as a clause x version table)",
 ]
 
-NAMES = ["a", "b", "c", "d"]
-SPELL = {"a": ["a", "A"], "b": ["b", "B"], "c": ["c", "C"], "d": ["d", "D"]}
+NAMES = ["a", "b", "c", "d.e"]
+SPELL = {"a": ["a", "A"], "b": ["b", "B"], "c": ["c", "C"], "d.e": ["d.e", "D-E", "d_e"]}
 
 
 def rand_req(rng, mode, me=None):
+    if me is not None:
+        me = {GL.norm(n): n for n in NAMES}.get(GL.norm(me), me)
     if mode == "dag" and me in NAMES:
         later = NAMES[NAMES.index(me) + 1:]
         if not later:
@@ -112,6 +114,16 @@ def check_graph(g, roots):
     """The coherence predicate of the property, on the real object graph."""
     errs = []
     live = {id(n) for n in g.nodes.values()}
+    # the collection as a mapping: every spelling of a project's name finds the project's node
+    for k, n in g.nodes.items():
+        if n.metadata is not None and n.metadata.meta:
+            continue
+        for sp in {k, k.upper(), k.replace("_", "-"), k.replace("_", ".")}:
+            try:
+                if sp not in g or g[sp] is not n:
+                    errs.append("lookup")
+            except KeyError:
+                errs.append("lookup")
     for k, n in g.nodes.items():
         if n.key != k:
             errs.append("key")
